@@ -27,7 +27,8 @@ def random_hists(rng, n, length, compaction, metas=("m0", "m1", "m2"), datas=("e
                 ops.append({"ev": "write", "k": rng.choice([1, 2, 3]), "c": rng.choice(["c1", "c1", "c2"]),
                             "d": rng.choice(datas), "m": rng.choice(metas)})
             elif r < 0.65:
-                ops.append({"ev": "delete", "k": rng.choice([1, 2, 3]), "c": rng.choice(["c1", "c1", "c2"])})
+                ops.append({"ev": "delete", "k": rng.choice([1, 2, 3]), "c": rng.choice(["c1", "c1", "c2"]),
+                            "via": "replicate" if rng.random() < 0.3 else ""})
             elif r < 0.72 and phase == "idle" and not ro:
                 ops.append({"ev": "restart"})
             elif r < 0.80 and not compaction:
